@@ -2,6 +2,7 @@ package main
 
 import (
 	"bytes"
+	"crypto/tls"
 	"encoding/base64"
 	"fmt"
 	"net/http"
@@ -63,19 +64,23 @@ func runC20(c *Ctx) {
 	type config struct {
 		patterns []string
 		extras   []extra
+		tls      string // where TLSCredsOption goes among the options: "", "first", "middle", "last"
 	}
 	configs := []config{
-		{nil, nil},
-		{[]string{"/"}, nil},
-		{[]string{"/api"}, nil},
-		{[]string{"/api/"}, nil},
-		{[]string{"/a", "/b/c/"}, nil},
-		{[]string{"/api", "/"}, nil},
-		{[]string{"/api", "/api/v2/"}, nil},
-		{[]string{"/api/"}, []extra{{"/extra/", "e0"}}},
-		{[]string{"/api"}, []extra{{"/extra/", "e0"}, {"/metrics", "e1"}}},
-		{[]string{"/api/", "/g"}, []extra{{"/extra/", "e0"}, {"/metrics", "e1"}, {"/api/special", "e2"}}},
-		{nil, []extra{{"/extra/", "e0"}, {"/healthz", "e1"}}},
+		{nil, nil, ""},
+		{[]string{"/"}, nil, ""},
+		{[]string{"/api"}, nil, ""},
+		{[]string{"/api/"}, nil, ""},
+		{[]string{"/a", "/b/c/"}, nil, ""},
+		{[]string{"/api", "/"}, nil, ""},
+		{[]string{"/api", "/api/v2/"}, nil, ""},
+		{[]string{"/api/"}, []extra{{"/extra/", "e0"}}, ""},
+		{[]string{"/api"}, []extra{{"/extra/", "e0"}, {"/metrics", "e1"}}, ""},
+		{[]string{"/api/", "/g"}, []extra{{"/extra/", "e0"}, {"/metrics", "e1"}, {"/api/special", "e2"}}, ""},
+		{nil, []extra{{"/extra/", "e0"}, {"/healthz", "e1"}}, ""},
+		{[]string{"/api"}, []extra{{"/extra/", "e0"}, {"/metrics", "e1"}}, "first"},
+		{[]string{"/api"}, []extra{{"/extra/", "e0"}, {"/metrics", "e1"}}, "middle"},
+		{[]string{"/api/", "/g"}, []extra{{"/extra/", "e0"}}, "last"},
 	}
 	enc, _ := proto.Marshal(reqWithData(fx, []byte("payload")))
 	type req struct {
@@ -118,14 +123,24 @@ func runC20(c *Ctx) {
 	}
 	for ci, cfg := range configs {
 		var opts []larking.ServerOption
+		tlsOpt := larking.TLSCredsOption(&tls.Config{MinVersion: tls.VersionTLS12})
+		if cfg.tls == "first" {
+			opts = append(opts, tlsOpt)
+		}
 		if cfg.patterns != nil {
 			opts = append(opts, larking.MuxHandleOption(cfg.patterns...))
 		}
-		for _, e := range cfg.extras {
+		for i, e := range cfg.extras {
+			if cfg.tls == "middle" && i == 1 {
+				opts = append(opts, tlsOpt)
+			}
 			opts = append(opts, larking.HTTPHandlerOption(e.pattern, marker(e.name)))
 		}
+		if cfg.tls == "last" {
+			opts = append(opts, tlsOpt)
+		}
 		srv, err := larking.NewServer(fx.Mux, opts...)
-		cfgS := fmt.Sprintf("patterns=%v extras=%v", cfg.patterns, cfg.extras)
+		cfgS := fmt.Sprintf("patterns=%v extras=%v tls=%q", cfg.patterns, cfg.extras, cfg.tls)
 		if err != nil {
 			c.SpecFail("config", cfgS, err.Error(), "a server", "C20/config-rejected", "a valid configuration is rejected")
 			continue
